@@ -33,4 +33,8 @@ PROPS = {
                     '(4096 code points each) over all of Unicode, crafted frames with refused values decoded'},
     'C19': {'rule': 'one Observe event per object (constructed, after setattr, decoded) for all 64 classes + Basic.Properties'},
     'C20': {'rule': 'FrameParts on buffers of length 0..16, every value of each header byte, Peek on encoded frames + tails'},
+    'C08': {'rule': 'one Unmarshal event per input under the decoder-step budget ImplBound(n)=16n+256 (sys.setprofile); inputs: '
+                    'single-byte corruptions, rewritten length fields / flag words, truncated payloads in valid envelopes, '
+                    'grammar-directed faults, nesting <= 64, random strings; peak memory measured on every 10th'},
+    'C09': {'rule': 'same corpus as C08; the clause only looks at the type of the exception that left frame.unmarshal'},
 }
